@@ -10,8 +10,8 @@ import travrun, travcmp
 
 def cfgs(ctx):
     if ctx.tier == "quick":
-        return [("Traversal_plan3.cfg", None, None), ("Traversal_elide4.cfg", None, None), ("Traversal_spell3.cfg", None, None),
-                ("Traversal_sim.cfg", "num=60", 8)]
+        return [("Traversal_plan3q.cfg", None, None), ("Traversal_elide4.cfg", None, None), ("Traversal_spell3q.cfg", None, None),
+                ("Traversal_sim.cfg", "num=25", 8)]
     return [("Traversal_plan3.cfg", None, None), ("Traversal_elide5.cfg", None, None), ("Traversal_spell3.cfg", None, None),
             ("Traversal_wide2.cfg", None, None), ("Traversal_narrow3.cfg", None, None), ("Traversal_sim.cfg", "num=4000", 8)]
 
@@ -20,7 +20,7 @@ def run(ctx, variants=("noload", "literal", "prod"), prop_prefix="plan"):
     total = nontriv = 0
     for cfg, sim, depth in cfgs(ctx):
         graphs, states = travrun.gen_states(ctx, cfg, simulate=sim, depth=depth)
-        states = travrun.thin(ctx, states, 30 if ctx.tier == "quick" else 600)
+        states = travrun.thin(ctx, states, 8 if ctx.tier == "quick" else 600)
         outs = travrun.replay(ctx, graphs, states, tag=cfg.split(".")[0])
         for v in variants:
             bad = travrun.failures(states, outs, v)
